@@ -186,16 +186,28 @@ def heap_machine(tier, record, fail):
 @st.composite
 def map_cases(draw, tier):
     big = tier == 'thorough'
-    nl = draw(S.netlists(max_g=30 if big else 14, max_pi=5, max_st=3, need_d=False))
+    large = draw(st.integers(0, 19)) == 0
+    nl = draw(S.netlists(max_g=(400 if big else 150) if large else (30 if big else 14), min_g=100 if large else 0, max_pi=5, max_st=3, need_d=False))
     return dict(nl=nl, caps=draw(st.one_of(st.sampled_from([1, 4, 16]), st.lists(st.sampled_from([1, 2, 4, 4, 8, 12, 16, 32]), min_size=3, max_size=12))),
                 cmin=draw(st.sampled_from([1, 4])), c_reuse=draw(st.sampled_from([True, True, False])), strip_forks=draw(st.booleans()))
 
 
 def prop_map(case):
     from kyupy.sim import SimOps
-    nl = case['nl']
-    b = build(nl)
-    c = b.c
+    if 'big' in case:
+        from vk import bigcirc
+        if case.get('shape') == 'rand':
+            n_in = case['big'][0]
+            c, _ = bigcirc.randnet(*case['big'], [1] * n_in, 1)
+        elif case.get('shape') == 'grid':
+            c, _ = bigcirc.grid(case['big'][0], case['big'][1], [1] * case['big'][0], 1)
+        else:
+            c, _ = bigcirc.chain(case['big'], 1, 1, 1)
+        pi_ids = {id(n) for n in c.io_nodes if len(n.ins) == 0}
+    else:
+        b = build(case['nl'])
+        c = b.c
+        pi_ids = {id(n) for n in b.pi} | {id(n) for n in b.st}
     nlines = len(c.lines)
     caps = W.caps_for(nlines, case['caps'])
     s = SimOps(c, c_caps=caps, c_caps_min=case['cmin'], c_reuse=case['c_reuse'], strip_forks=case['strip_forks'])
@@ -207,7 +219,7 @@ def prop_map(case):
         for op in ops[a:z]:
             if int(op[1]) < nlines:
                 written[int(op[1])] = L
-    pi_nodes = {id(n) for n in b.pi} | {id(n) for n in b.st}
+    pi_nodes = pi_ids
 
     def stem(idx):
         l = c.lines[idx]
@@ -273,16 +285,20 @@ def prop_map(case):
     for r in regions:
         if r[0] < 0 or r[1] > s.c_len:
             raise Violation(f'{r[4]}: region [{r[0]},{r[1]}) outside [0, c_len={s.c_len})')
-    regions.sort()
-    for i, r in enumerate(regions):
-        for q in regions[i + 1:]:
-            if q[0] >= r[1]:
-                break
-            # regions overlap in space
-            if r[2] <= q[3] and q[2] <= r[3]:
+    cells = {}                      # memory cell -> regions that contain it
+    for r in regions:
+        for x in range(r[0], r[1]):
+            cells.setdefault(x, []).append(r)
+    for x, rs in cells.items():
+        if len(rs) < 2:
+            continue
+        shared = True
+        rs.sort(key=lambda r: (r[2], r[3]))
+        for r, q in zip(rs, rs[1:]):            # sorted by first level: any overlap in time shows between neighbours
+            if q[2] <= r[3]:
                 raise Violation(f'{r[4]} [{r[0]},{r[1]}) live in levels {r[2]}..{r[3]} overlaps {q[4]} [{q[0]},{q[1]}) live in levels {q[2]}..{q[3]}')
-            shared = True
     labels = []
+    if 'big' in case: labels.append('lines>65536' if nlines > 65536 else 'large_circuit')
     if case['c_reuse']: labels.append('c_reuse')
     if case['strip_forks']: labels.append('strip_forks')
     if shared: labels.append('region_shared_over_time')
@@ -290,6 +306,17 @@ def prop_map(case):
     return Obs(case['c_reuse'] and shared, labels, checks=len(regions))
 
 
-PARTS = [Part('heap', prop_heap, strategy=heap_cases, quick=(4, 1500), thorough=(16, 30000)),
+def enum_bigmap(tier):
+    yield dict(big=35000, caps=1, cmin=1, c_reuse=True, strip_forks=False)
+    yield dict(big=35000, caps=4, cmin=4, c_reuse=True, strip_forks=True)
+    yield dict(big=(24, 320), shape='grid', caps=1, cmin=1, c_reuse=True, strip_forks=False)
+    yield dict(big=(8, 9000, 24, 60, 1), shape='rand', caps=[1, 2, 1, 4, 3], cmin=1, c_reuse=True, strip_forks=False)
+    if tier == 'thorough':
+        yield dict(big=70000, caps=1, cmin=1, c_reuse=True, strip_forks=True)
+        yield dict(big=6000, caps=[4, 8, 4, 16], cmin=4, c_reuse=True, strip_forks=False)
+
+
+PARTS = [Part('bigmap', prop_map, enumerate=enum_bigmap, quick=(2, 0), thorough=(4, 0)),
+         Part('heap', prop_heap, strategy=heap_cases, quick=(4, 1500), thorough=(16, 30000)),
          Part('heap_machine', prop_heap, machine=heap_machine, quick=(2, 200), thorough=(8, 3000)),
          Part('map', prop_map, strategy=map_cases, quick=(8, 250), thorough=(16, 3000))]
